@@ -102,8 +102,16 @@ func runImpl() {
 		line, err := in.ReadString('\n')
 		if len(line) > 0 {
 			line = strings.TrimRight(line, "\n")
-			out.WriteString(evalOp(line))
+			res := evalOp(line)
+			out.WriteString(res)
 			out.WriteByte('\n')
+			if strings.HasPrefix(res, "HANG") || strings.HasPrefix(res, "DEADLOCK") {
+				// goroutines of the code under test are stuck (possibly holding process-wide locks):
+				// ask the parent for a fresh worker for the remaining ops
+				out.WriteString("##RESTART##\n")
+				out.Flush()
+				os.Exit(0)
+			}
 			out.Flush()
 		}
 		if err != nil {
